@@ -66,17 +66,21 @@ type jcell struct {
 }
 
 type jval struct {
-	t    *Term  // plain value (float/int/bool)
-	cell *jcell // scalar reference
-	tup  []*jval
-	obj  string // symbolic object path (struct pointers whose fields hold scalars)
+	t     *Term  // plain value (float/int/bool)
+	cell  *jcell // scalar reference
+	tup   []*jval
+	obj   string // symbolic object path (struct pointers whose fields hold scalars)
+	faddr string // address of a field slot (object path + "." + field)
+	ftype types.Type
 	isNil bool
+	isErr bool // a non-nil error value
 }
 
 type jpath struct {
-	pc    []*Term
-	cells map[int]*jcell // current contents (copy on write per path)
-	ret   []*jval
+	pc       []*Term
+	cells    map[int]*jcell // current contents (copy on write per path)
+	binds    map[string]*jval // field slot -> value stored on this path
+	ret      []*jval
 	panicked bool
 }
 
@@ -91,6 +95,8 @@ type jetExec struct {
 	fields map[string]*jcell
 	err    string
 	maxPaths int
+	newObjs []string
+	depth  int
 }
 
 type jetFail struct{ msg string }
@@ -121,7 +127,10 @@ func constCell(je *jetExec, v *Term) *jcell {
 }
 
 func (p *jpath) clone() *jpath {
-	n := &jpath{pc: append([]*Term{}, p.pc...), cells: map[int]*jcell{}}
+	n := &jpath{pc: append([]*Term{}, p.pc...), cells: map[int]*jcell{}, binds: map[string]*jval{}}
+	for k, v := range p.binds {
+		n.binds[k] = v
+	}
 	for k, c := range p.cells {
 		cc := *c
 		n.cells[k] = &cc
@@ -318,8 +327,11 @@ func (je *jetExec) instr(fr *jframe, in ssa.Instruction, p *jpath) {
 		case token.NOT:
 			fr.vals[x] = &jval{t: Not(v.t)}
 		case token.MUL:
-			// load: field cells are resolved in FieldAddr
-			fr.vals[x] = v
+			if v.faddr != "" {
+				fr.vals[x] = je.loadField(p, v)
+			} else {
+				fr.vals[x] = v
+			}
 		default:
 			je.fail("unop %s", x.Op)
 		}
@@ -385,29 +397,35 @@ func (je *jetExec) instr(fr *jframe, in ssa.Instruction, p *jpath) {
 	case *ssa.FieldAddr:
 		base := je.value(fr, x.X)
 		st := x.X.Type().Underlying().(*types.Pointer).Elem().Underlying().(*types.Struct)
-		path := base.obj + "." + st.Field(x.Field).Name()
-		ft := st.Field(x.Field).Type()
-		if isScalarType(ft) {
-			c, ok := je.fields[path]
-			if !ok {
-				c = je.newCell(strings.TrimPrefix(path, "."), true)
-				je.fields[path] = c
-			}
-			fr.vals[x] = &jval{cell: c}
-			return
+		if base.obj == "" {
+			je.fail("field of an unknown object")
 		}
-		if _, ok := ft.Underlying().(*types.Struct); ok {
-			fr.vals[x] = &jval{obj: path}
-			return
+		fr.vals[x] = &jval{faddr: base.obj + "." + st.Field(x.Field).Name(), ftype: st.Field(x.Field).Type()}
+	case *ssa.Alloc:
+		et := x.Type().(*types.Pointer).Elem()
+		if _, ok := et.Underlying().(*types.Struct); ok {
+			je.nextID++
+			fr.vals[x] = &jval{obj: fmt.Sprintf("new%d", je.nextID)}
+			je.newObjs = append(je.newObjs, fr.vals[x].obj)
+		} else {
+			je.nextID++
+			fr.vals[x] = &jval{faddr: fmt.Sprintf("local%d", je.nextID), ftype: et}
 		}
-		if pt, ok := ft.Underlying().(*types.Pointer); ok {
-			if _, ok := pt.Elem().Underlying().(*types.Struct); ok {
-				fr.vals[x] = &jval{obj: path}
-				return
-			}
+	case *ssa.Store:
+		av := je.value(fr, x.Addr)
+		if av.faddr == "" {
+			je.fail("store through a non-field address")
 		}
-		// plain data field: a symbolic constant per path
-		fr.vals[x] = &jval{t: Const("jf:"+path, je.V.sortOf(ft))}
+		p.binds[av.faddr] = je.value(fr, x.Val)
+	case *ssa.IndexAddr:
+		base := je.value(fr, x.X)
+		if base.faddr == "" {
+			je.fail("index into unknown storage")
+		}
+		et := x.Type().(*types.Pointer).Elem()
+		fr.vals[x] = &jval{faddr: fmt.Sprintf("%s[%s]", base.faddr, je.value(fr, x.Index).t.String()), ftype: et}
+	case *ssa.Slice:
+		fr.vals[x] = &jval{t: Fresh("opaque", SInt)}
 	case *ssa.Extract:
 		tv := je.value(fr, x.Tuple)
 		if tv.tup == nil {
@@ -462,6 +480,9 @@ func (je *jetExec) call(fr *jframe, x *ssa.Call, p *jpath) *jval {
 	}
 	rv := je.value(fr, recvV)
 	if rv.cell == nil {
+		if fn, ok := cc.Value.(*ssa.Function); ok && len(fn.Blocks) > 0 {
+			return je.inlineCall(fr, fn, cc.Args, p)
+		}
 		je.fail("method %s on a non-scalar receiver", name)
 	}
 	recv := rv.cell
@@ -491,6 +512,13 @@ func (je *jetExec) call(fr *jframe, x *ssa.Call, p *jpath) *jval {
 		}
 	}
 	switch name {
+	case "CloneScalar", "CloneConstScalar", "CloneMagicScalar", "Clone":
+		src := *p.cur(recv)
+		je.nextID++
+		nc := &jcell{id: je.nextID, name: fmt.Sprintf("clone%d", je.nextID), v: src.v, d: src.d, e: src.e, h: src.h, order: src.order}
+		return &jval{cell: nc}
+	case "Type", "String":
+		return &jval{t: Fresh("opaque", SInt)}
 	case "GetFloat64", "GetFloat32":
 		return &jval{t: p.cur(recv).v}
 	case "GetOrder":
@@ -554,11 +582,79 @@ func (je *jetExec) callFunc(fr *jframe, x *ssa.Call, fn *ssa.Function, argVs []s
 	case "NullReal64", "NullReal32", "NullFloat64", "NullFloat32":
 		return &jval{cell: constCell(je, RealOfInt(0))}
 	}
+	switch fn.Name() {
+	case "NewScalar", "NewConstScalar", "NewMagicScalar":
+		v := je.value(fr, argVs[1])
+		return &jval{cell: constCell(je, ToReal(v.t))}
+	case "NullScalar":
+		return &jval{cell: constCell(je, RealOfInt(0))}
+	}
 	if pkg == "fmt" || pkg == "errors" {
-		return &jval{t: Fresh("err", SInt)}
+		return &jval{isErr: true}
+	}
+	if len(fn.Blocks) > 0 {
+		return je.inlineCall(fr, fn, argVs, p)
 	}
 	je.fail("call of %s has no jet semantics", fn.String())
 	return nil
+}
+
+// inlineCall executes a loop-free static callee in place (single return path required per caller path).
+func (je *jetExec) inlineCall(fr *jframe, fn *ssa.Function, argVs []ssa.Value, p *jpath) *jval {
+	if je.depth > 4 {
+		je.fail("inline depth exceeded at %s", fn.Name())
+	}
+	nf := &jframe{vals: map[ssa.Value]*jval{}}
+	for i, prm := range fn.Params {
+		nf.vals[prm] = je.value(fr, argVs[i])
+	}
+	// run the callee on a private path list; it must not fork (callers handle branching themselves)
+	saved := je.paths
+	je.paths = nil
+	je.depth++
+	je.run(nf, fn.Blocks[0], nil, p, 0)
+	je.depth--
+	got := je.paths
+	je.paths = saved
+	if len(got) != 1 || got[0] != p {
+		je.fail("inlined callee %s branches on symbolic data", fn.Name())
+	}
+	ret := p.ret
+	p.ret = nil
+	switch len(ret) {
+	case 0:
+		return &jval{}
+	case 1:
+		return ret[0]
+	}
+	return &jval{tup: ret}
+}
+
+func (je *jetExec) loadField(p *jpath, a *jval) *jval {
+	if v, ok := p.binds[a.faddr]; ok {
+		return v
+	}
+	ft := a.ftype
+	if isScalarType(ft) {
+		c, ok := je.fields[a.faddr]
+		if !ok {
+			c = je.newCell(a.faddr, true)
+			je.fields[a.faddr] = c
+		}
+		return &jval{cell: c}
+	}
+	if _, ok := ft.Underlying().(*types.Struct); ok {
+		return &jval{obj: a.faddr}
+	}
+	if pt, ok := ft.Underlying().(*types.Pointer); ok {
+		if _, ok := pt.Elem().Underlying().(*types.Struct); ok {
+			return &jval{obj: a.faddr}
+		}
+	}
+	if _, ok := ft.Underlying().(*types.Interface); ok {
+		return &jval{t: Const("jf:"+a.faddr, SIface)}
+	}
+	return &jval{t: Const("jf:"+a.faddr, je.V.sortOf(ft))}
 }
 
 // ---------------------------------------------------------------------------
@@ -584,10 +680,7 @@ func (V *Verifier) JetCheck(fn *ssa.Function, con *Contract) *FuncResult {
 		}
 	}
 	aliasSpecs = append(aliasSpecs, con.JetAlias...)
-	if specE == nil {
-		res.Err = "no jetspec clause"
-		return res
-	}
+	_ = specE
 	dummy := &Exec{V: V, fn: fn, name: name, counters: map[string]int{}, initHeap: map[string]*Term{}, allComps: map[string]*Sort{}, params: map[string]*Val{}, paramTyp: map[string]types.Type{}}
 	res.Ex = dummy
 	for _, as := range aliasSpecs {
@@ -610,7 +703,7 @@ func (V *Verifier) JetCheck(fn *ssa.Function, con *Contract) *FuncResult {
 					panic(r)
 				}
 			}()
-			je.checkAlias(as, specE, requires, res, dummy)
+			je.checkAlias(as, requires, res, dummy)
 		}()
 		if res.Err != "" {
 			return res
@@ -619,7 +712,7 @@ func (V *Verifier) JetCheck(fn *ssa.Function, con *Contract) *FuncResult {
 	return res
 }
 
-func (je *jetExec) checkAlias(as string, specE *Expr, requires []*Expr, res *FuncResult, dummy *Exec) {
+func (je *jetExec) checkAlias(as string, requires []*Expr, res *FuncResult, dummy *Exec) {
 	fn := je.fn
 	// alias pattern "c=a": parameters sharing one cell
 	rep := map[string]string{}
@@ -658,10 +751,18 @@ func (je *jetExec) checkAlias(as string, specE *Expr, requires []*Expr, res *Fun
 			continue
 		}
 		if pt, ok := p.Type().Underlying().(*types.Pointer); ok {
-			if _, ok := pt.Elem().Underlying().(*types.Struct); ok {
+			if st, ok := pt.Elem().Underlying().(*types.Struct); ok {
 				fr.vals[p] = &jval{obj: n}
 				if i == 0 && fn.Signature.Recv() != nil {
 					recvName = ""
+				}
+				for fi := 0; fi < st.NumFields(); fi++ {
+					if isScalarType(st.Field(fi).Type()) {
+						path := n + "." + st.Field(fi).Name()
+						if _, ok := je.fields[path]; !ok {
+							je.fields[path] = je.newCell(path, true)
+						}
+					}
 				}
 				continue
 			}
@@ -682,38 +783,28 @@ func (je *jetExec) checkAlias(as string, specE *Expr, requires []*Expr, res *Fun
 	for n, c := range cells {
 		initial[n] = *c
 	}
-	p0 := &jpath{cells: map[int]*jcell{}}
+	p0 := &jpath{cells: map[int]*jcell{}, binds: map[string]*jval{}}
 	je.run(fr, fn.Blocks[0], nil, p0, 0)
-	// spec variables
+	// spec variables: initial values of parameter cells (by name and as x, y, ...), of object fields
+	// (obj_Field) and plain parameters
 	vars := map[string]*Term{}
 	var opCells []jcell
 	for k, on := range operands {
 		var c jcell
 		if ic, ok := initial[on]; ok {
 			c = ic
-		} else if fc, ok := je.fields["."+on]; ok {
-			c = *fc
-		} else if fc, ok := je.fields[on]; ok {
+		} else if fc, ok := je.fields[strings.ReplaceAll(on, "_", ".")]; ok {
 			c = *fc
 		} else {
-			// field path relative to receiver object e.g. "obj.Mu"
-			found := false
-			for path, fc := range je.fields {
-				if strings.TrimPrefix(path, ".") == on || path == on {
-					c = *fc
-					found = true
-				}
-			}
-			if !found {
-				// a parameter-like symbol that the function never touched
-				nc := je.newCell(on, true)
-				c = *nc
-			}
+			nc := je.newCell(on, true)
+			c = *nc
 		}
 		opCells = append(opCells, c)
 		vn := []string{"x", "y", "z", "w", "u"}[k]
 		vars[vn] = c.v
-		vars[on] = c.v
+	}
+	for n, ic := range initial {
+		vars[n] = ic.v
 	}
 	for _, p := range fn.Params {
 		if jv := fr.vals[p]; jv != nil && jv.t != nil {
@@ -721,29 +812,40 @@ func (je *jetExec) checkAlias(as string, specE *Expr, requires []*Expr, res *Fun
 		}
 	}
 	for path, fc := range je.fields {
-		vars[strings.ReplaceAll(strings.TrimPrefix(path, "."), ".", "_")] = fc.v
+		vars[strings.ReplaceAll(path, ".", "_")] = fc.v
 	}
-	F := je.evalSpec(specE, vars)
-	var reqT []*Term
-	for _, r := range requires {
+	evalB := func(e *Expr, vs map[string]*Term) *Term {
 		ex := &Exec{V: je.V, fn: fn, counters: map[string]int{}, initHeap: map[string]*Term{}, allComps: map[string]*Sort{}, params: map[string]*Val{}}
 		cv := map[string]*CVal{}
-		for k, v := range vars {
+		for k, v := range vs {
 			cv[k] = &CVal{T: v}
 		}
 		env := &CEnv{ex: ex, vars: cv, st: &State{heap: map[string]*Term{}, alloc: IntLit(1)}, pkg: fn.Pkg.Pkg}
-		v, err := env.Eval(r)
+		v, err := env.Eval(e)
 		if err != nil {
-			je.fail("jetrequires: %v", err)
+			je.fail("%s: %v", e.Src, err)
 		}
-		reqT = append(reqT, v.T)
+		return v.T
 	}
-	// symbolic derivatives of the spec: differentiate F numerically is impossible; the spec's
-	// partial derivatives are supplied by the generator next to the spec (jetd clauses)
+	var reqT []*Term
+	for _, r := range requires {
+		reqT = append(reqT, evalB(r, vars))
+	}
+	var F, support, errWhen *Term
+	var ensures []*Clause
 	d1 := map[string]*Term{}
 	d2 := map[string]*Term{}
 	for _, cl := range je.con.Clauses {
-		if cl.Kind == "jetd" {
+		switch cl.Kind {
+		case "jetspec":
+			F = je.evalSpec(cl.E, vars)
+		case "jetsupport":
+			support = evalB(cl.E, vars)
+		case "jeterrors_when":
+			errWhen = evalB(cl.E, vars)
+		case "jetensures":
+			ensures = append(ensures, cl)
+		case "jetd":
 			t := je.evalSpec(cl.E, vars)
 			if len(cl.Name) == 2 {
 				d1[cl.Name[1:]] = t
@@ -752,37 +854,91 @@ func (je *jetExec) checkAlias(as string, specE *Expr, requires []*Expr, res *Fun
 			}
 		}
 	}
+	valueOnly := je.con.JetValueOnly
 	vn := []string{"x", "y", "z", "w", "u"}
-	// expected jet of the result
 	expD, expE, expH := RealOfInt(0), RealOfInt(0), RealOfInt(0)
-	for k, c := range opCells {
-		fk := d1[vn[k]]
-		if fk == nil {
-			je.fail("missing first derivative jetd d%s", vn[k])
-		}
-		expD = Add(expD, Mul(c.d, fk))
-		expE = Add(expE, Mul(c.e, fk))
-		expH = Add(expH, Mul(c.h, fk))
-	}
-	for k, c := range opCells {
-		for l, c2 := range opCells {
-			key := vn[k] + vn[l]
-			if l < k {
-				key = vn[l] + vn[k]
+	if F != nil && !valueOnly {
+		for k, c := range opCells {
+			fk := d1[vn[k]]
+			if fk == nil {
+				je.fail("missing first derivative jetd d%s", vn[k])
 			}
-			fkl := d2[key]
-			if fkl == nil {
-				je.fail("missing second derivative jetd d%s", key)
+			expD = Add(expD, Mul(c.d, fk))
+			expE = Add(expE, Mul(c.e, fk))
+			expH = Add(expH, Mul(c.h, fk))
+		}
+		for k, c := range opCells {
+			for l, c2 := range opCells {
+				key := vn[k] + vn[l]
+				if l < k {
+					key = vn[l] + vn[k]
+				}
+				fkl := d2[key]
+				if fkl == nil {
+					je.fail("missing second derivative jetd d%s", key)
+				}
+				expH = Add(expH, Mul(Mul(c.d, c2.e), fkl))
 			}
-			expH = Add(expH, Mul(Mul(c.d, c2.e), fkl))
 		}
 	}
+	_ = expE
 	if len(je.paths) == 0 {
 		je.fail("no path reaches a return")
 	}
-	valueOnly := je.con.JetValueOnly
+	results := fn.Signature.Results()
+	lastIsErr := results.Len() > 0 && types.TypeString(results.At(results.Len()-1).Type(), nil) == "error"
 	for pi, p := range je.paths {
 		if p.panicked {
+			continue
+		}
+		hyp := append([]*Term{}, je.facts...)
+		hyp = append(hyp, reqT...)
+		hyp = append(hyp, p.pc...)
+		mk := func(kind string, goal *Term, src string) {
+			o := &Obligation{Name: fmt.Sprintf("%s#jet.%s.alias=%s.path%d", je.name, kind, strings.ReplaceAll(as, ",", "+"), pi+1), Kind: "jet", Func: je.name,
+				Goal: goal, Reach: And(hyp...), Ex: dummy, Src: src, JetHyp: hyp}
+			res.Obls = append(res.Obls, o)
+		}
+		retErr := false
+		if lastIsErr && len(p.ret) > 0 {
+			retErr = p.ret[len(p.ret)-1].isErr
+		}
+		if errWhen != nil {
+			if retErr {
+				mk("errors", errWhen, "an error is returned only when: "+oneLine(errWhen.String()))
+			} else {
+				mk("errors", Not(errWhen), "no error is returned only when the error condition is false")
+			}
+		}
+		// final values visible to jetensures: post_<param>, post_result<k>_<Field>
+		post := map[string]*Term{}
+		for k, v := range vars {
+			post[k] = v
+		}
+		for n, c0 := range cells {
+			post["post_"+n] = p.cur(c0).v
+		}
+		for path, fc := range je.fields {
+			post["post_"+strings.ReplaceAll(path, ".", "_")] = p.cur(fc).v
+		}
+		for k, rv := range p.ret {
+			if rv.obj != "" {
+				for slot, bv := range p.binds {
+					if strings.HasPrefix(slot, rv.obj+".") && bv.cell != nil {
+						post[fmt.Sprintf("post_result%d_%s", k, strings.TrimPrefix(slot, rv.obj+"."))] = p.cur(bv.cell).v
+					}
+				}
+			}
+			if rv.cell != nil {
+				post[fmt.Sprintf("post_result%d", k)] = p.cur(rv.cell).v
+			}
+		}
+		if !retErr {
+			for k, cl := range ensures {
+				mk(fmt.Sprintf("ensures%d", k+1), evalB(cl.E, post), cl.Src)
+			}
+		}
+		if F == nil || retErr {
 			continue
 		}
 		var tc *jcell
@@ -797,15 +953,12 @@ func (je *jetExec) checkAlias(as string, specE *Expr, requires []*Expr, res *Fun
 		if tc == nil {
 			je.fail("cannot identify the result cell")
 		}
-		hyp := append([]*Term{}, je.facts...)
-		hyp = append(hyp, reqT...)
-		hyp = append(hyp, p.pc...)
-		mk := func(kind string, goal *Term, src string) {
-			o := &Obligation{Name: fmt.Sprintf("%s#jet.%s.alias=%s.path%d", je.name, kind, strings.ReplaceAll(as, ",", "+"), pi+1), Kind: "jet", Func: je.name,
-				Goal: goal, Reach: And(hyp...), Ex: dummy, Src: src, JetHyp: hyp}
-			res.Obls = append(res.Obls, o)
+		if support != nil {
+			mk("value", Implies(support, Eq(tc.v, F)), "on the support: value == "+oneLine(F.String()))
+			mk("support", Implies(Not(support), Eq(tc.v, App("ninf", SReal))), "outside the support the log-density is -Inf")
+		} else {
+			mk("value", Eq(tc.v, F), "value == named function")
 		}
-		mk("value", Eq(tc.v, F), "value == "+specE.Src)
 		if !valueOnly {
 			mk("d1", Eq(tc.d, expD), "gradient slot == chain rule of the named function")
 			mk("d2", Eq(tc.h, expH), "Hessian slot == second-order chain rule of the named function")
@@ -824,11 +977,42 @@ func (je *jetExec) checkAlias(as string, specE *Expr, requires []*Expr, res *Fun
 					isOperand = true
 				}
 			}
-			if !isOperand || cells[n].id == cells[target].id {
+			if !isOperand || (cells[target] != nil && cells[n].id == cells[target].id) {
 				continue
 			}
 			cur := p.cur(cells[n])
 			mk("unchanged."+n, And(Eq(cur.v, ic.v), Eq(cur.d, ic.d), Eq(cur.h, ic.h)), "operand "+n+" is left unchanged")
 		}
+		// object fields (distribution parameters) are never modified
+		var fps []string
+		for path := range je.fields {
+			fps = append(fps, path)
+		}
+		sort.Strings(fps)
+		for _, path := range fps {
+			fc := je.fields[path]
+			cur := p.cur(fc)
+			if scratchField(path) {
+				continue
+			}
+			if cur.v != fc.v || cur.d != fc.d || cur.h != fc.h {
+				mk("unchanged."+strings.ReplaceAll(path, ".", "_"), And(Eq(cur.v, fc.v), Eq(cur.d, fc.d), Eq(cur.h, fc.h)), "parameter "+path+" is left unchanged")
+			}
+		}
 	}
+}
+
+// scratchField: unexported fields named t, t1, t2, ... are documented scratch scalars of a distribution.
+func scratchField(path string) bool {
+	k := strings.LastIndex(path, ".")
+	n := path[k+1:]
+	if n == "" || n[0] != 't' {
+		return false
+	}
+	for _, r := range n[1:] {
+		if r < '0' || r > '9' {
+			return false
+		}
+	}
+	return true
 }
